@@ -176,6 +176,7 @@ func (a *archiver) worker(workerID string) {
 		case seed, ok := <-a.inputCh:
 			if ok {
 				logger.Debug("received seed", "seed", seed.GetShortID(), "depth", seed.GetDepth(), "hops", seed.GetURL().GetHops())
+				verifhook.At("archiver.received", seed.GetID())
 
 				if err := seed.CheckConsistency(); err != nil {
 					panic(fmt.Sprintf("seed consistency check failed with err: %s, seed id %s", err.Error(), seed.GetShortID()))
